@@ -43,6 +43,10 @@ CmpDT(post, exp) == CmpDTc(post, exp, "DateTime")
 \* expected outcome may be an exception
 CmpOut(post, exp, cls) ==
   IF IsExc(exp) THEN (IF post.k = "exc" THEN V("exception-class", exp.names \subseteq ToSet(post.names), exp.names)
+                                            \* "NonExistingTime exactly for skipped and AmbiguousTime exactly for repeated":
+                                            \* what is raised for the one is not also an instance of the other
+                                            \o V("exception-exactly", ({"NonExistingTime", "AmbiguousTime"} \ exp.names) \cap ToSet(post.names) = {},
+                                                 exp.names)
                       ELSE << <<"must-raise", exp.names>> >>)
   ELSE IF post.k = "exc" THEN << <<"unexpected-exception", post.names>> >>
   ELSE CmpDTc(post, exp, cls)
